@@ -179,7 +179,7 @@ def run_property(prop, tier, seed, only=None, keep=False, jobs=None, no_replay=F
                 gb = gate.acquire(h.get("mem_gb", 6))
                 try:
                     tmo = h.get("timeout", 300)
-                    r = pdbv.run_one(h, crate, scratch, tdir, tmo, h.get("mem_gb", 6) * 2 + 8)
+                    r = pdbv.run_one(h, crate, scratch, tdir, tmo, h.get("mem_limit_gb", h.get("mem_gb", 6) * 2 + 8))
                     r["h"] = h
                     r["scratch"] = scratch
                     r["crate"] = crate
@@ -305,7 +305,7 @@ def run_property(prop, tier, seed, only=None, keep=False, jobs=None, no_replay=F
             if not no_replay and mode in ("playback", "playback-native-env"):
                 pdbv.log("[%s] replaying %s natively ..." % (prop, hname))
                 try:
-                    pb = playback(h, r["crate"], r["scratch"], h.get("timeout", 300) * 2, h.get("mem_gb", 6) * 1.5 + 4)
+                    pb = playback(h, r["crate"], r["scratch"], h.get("timeout", 300) * 2, h.get("mem_limit_gb", h.get("mem_gb", 6) * 2 + 8))
                 except Exception as e:  # noqa
                     pb = {"reproduced": None, "detail": "playback machinery failed: %r" % (e,)}
                 rec["playback"] = pb
